@@ -15,6 +15,9 @@ import (
 var c26Formats = []string{
 	"/rec/%path/%Y-%m-%d_%H-%M-%S-%f.mp4",
 	"/rec/%path/%Y-%m-%d_%H-%M-%S.mp4",
+	// same literals, two-digit tokens permuted: the generated regular expressions are identical (seeded change C26-a)
+	"/rec/%path/%Y-%d-%m_%H-%M-%S-%f.mp4",
+	"/rec/%path/%Y-%m-%d_%S-%M-%H-%f.mp4",
 	"/rec/%path/%s.ts",
 	"/rec/%path/%s-%f.mp4",
 	"/rec/%path_%Y%m%d%H%M%S%f.mp4",
@@ -52,7 +55,7 @@ func TestVerifC26(t *testing.T) {
 	rng := r.Rand("c26")
 	zones := []*time.Location{time.Local, time.UTC, time.FixedZone("a", 5*3600+1800), time.FixedZone("b", -(3*3600 + 1800)), time.FixedZone("c", 12*3600+45*60), time.FixedZone("d", -11*3600)}
 	r.SetAdd("process_tz", time.Local.String())
-	n := r.N(40000, 1000000)
+	n := r.N(20000, 1000000)
 	for i := 0; i < n; i++ {
 		format := c26Formats[rng.IntN(len(c26Formats))]
 		_, micro, zoneFixed := c26FormatFixes(format)
